@@ -59,6 +59,7 @@ class Online(object):
         self.unanswered, self.answered = [], []
         self.conn_id = None
         self.made = []  # ids handed to make so far
+        self.hook_rate = rng.choice([0.0, 0.0, 0.1, 0.25, 0.5])
 
     def emit(self, line):
         ob = self.run.ex(line)
@@ -118,7 +119,21 @@ class Online(object):
                 if free:
                     cid = rng.choice(free)
             self.made.append(cid)
-            self.emit("make %d %d" % (cid, 0 if rng.random() < 0.12 else 1))
+            hook = ""
+            if rng.random() < self.hook_rate:
+                # the caller's callback on this Deferred calls back into the broker client
+                m = rng.random()
+                if m < 0.12:
+                    hook = " hook close"
+                elif m < 0.3:
+                    hook = " hook disconnect"
+                elif m < 0.65:
+                    hook = " hook cancel %d" % rng.choice(self.pool)
+                else:
+                    hook = " hook make %d %d" % (rng.choice(self.pool + [rng.randrange(20, 30)]), 0 if rng.random() < 0.15 else 1)
+            # a request that expects no reply fires while the queue is written: the interesting place for a callback
+            p_noreply = 0.35 if (hook and not r.connected()) else 0.12
+            self.emit("make %d %d%s" % (cid, 0 if rng.random() < p_noreply else 1, hook))
         elif k == "cancel":
             cid = rng.choice(self.made[-6:]) if rng.random() < 0.85 else rng.choice(self.pool)
             self.emit("cancel %d" % cid)
@@ -178,7 +193,7 @@ class Online(object):
         while len(self.events) < self.maxlen and guard < self.maxlen * 6 and after_close < 4:
             guard += 1
             self.step()
-            if self.run.bc._dDown is not None:
+            if self.run.close_called:
                 after_close += 1
         # flush what the broker still has queued, so that replies are not systematically lost at the end
         if self.run.readable() and self.sbuf and self.rng.random() < 0.7:
